@@ -1,5 +1,5 @@
 """C06 -- incremental training equals batch training (F-CHUNK: delivery chunking of the training stream)."""
-from .. import gen
+from .. import gen, kernel
 from ..twin import obs_ops, observe_same, same_params
 from ..world import LINEAR, Session, is_contextual, tol_for
 
@@ -50,7 +50,13 @@ def generate(rnd, tier, index=0):
                 if r[2] is not None and regime == "exact":
                     r[2] = [x + 0.5 for x in r[2]]
     Q = gen.gen_Q(rnd, rnd.randint(1, 5), d, regime, stored) if ctxl else rnd.choice([None, [[0]], [[1, 2], [3, 4]]])
-    return {"cfg": cfg, "regime": regime, "ops": ops, "Q": Q}
+    jobs = None
+    if rnd.random() < 0.3:
+        # the chunked side trains with n_jobs > 1 under a seeded worker schedule per chunk (the one-batch side stays at 1)
+        jobs = {"n_jobs": rnd.choice([2, 3, -1]), "backend": rnd.choice([None, "threading", "loky"])}
+        for o in ops:
+            o["sched"] = kernel.Sched.draw(rnd)
+    return {"cfg": cfg, "regime": regime, "ops": ops, "Q": Q, "jobs": jobs}
 
 
 def lp_allows_any(cfg):
@@ -69,7 +75,7 @@ def execute(case, ctx):
     cfg = case["cfg"]
     rtol = tol_for(cfg, case["regime"])
     atol = 1e-9 if (cfg["lp"][0] in LINEAR) else (0.0 if case["regime"] == "exact" else 1e-12)
-    P = Session(cfg)
+    P = Session(cfg, **(case.get("jobs") or {}))
     applied = []
     for step, op in enumerate(case["ops"]):
         ctx.ev("op", op["op"], step)
@@ -77,7 +83,7 @@ def execute(case, ctx):
         if step == 0 and op["op"] == "partial_fit":
             ctx.fired("probe.first_chunk_by_partial_fit")
         first = not P.fitted
-        r = P.apply(op)
+        r = P.apply(op, sched=op.get("sched"))
         if r[0] == "skip":
             continue
         if r[0] == "exc":
